@@ -117,3 +117,27 @@ Definition entry_ok (reserved : list string) (dicts : list (dict member))
   | SLocal k => denotes reserved dicts (rev before) k <> None
   | SRef c k => class_attr dicts c k <> None
   end.
+
+(* ---- instantiation histories --------------------------------------- *)
+
+(* No class of the table holds a STATE under one of the two attribute names
+   that instantiation sets on the class.  (Both are attributes of
+   StateMachine, so a state cannot be called that: in an accepted module this
+   holds, see C12_history_module.) *)
+Definition published_free (dicts : list (dict member)) : Prop :=
+  forall d k s, In d dicts -> In (k, MState s) d ->
+    k <> "state_names" /\ k <> "state_descriptions".
+
+(* What the CLASS says about an attempt to instantiate it and bind the
+   instance: the exception of its first/default multiplicity check, or the
+   instance with its two lists -- computed on the class table [dicts] alone,
+   no history, no NetworkTables content involved. *)
+Definition class_outcome (dicts : list (dict member)) (mro : list nat) : outcome :=
+  match instantiate dicts mro with
+  | Err e => ORaised e
+  | Ok r => OBound r (r_names r) (r_descs r)
+  end.
+
+(* the class dicts of a class given by its MRO *)
+Definition bodies_of (dicts : list (dict member)) (mro : list nat) : list (dict member) :=
+  map (fun i => nth i dicts []) mro.
